@@ -97,7 +97,7 @@ def builtin_corpus():
 
 
 run_impl = L.run_impl
-oracle = L.oracle_c08
+oracle = L.guarded(L.oracle_c08)
 gen_tables = L.gen_tables
 
 MUT = ("place", "remove", "move", "swap", "mte", "mto")
